@@ -149,7 +149,6 @@ func VerifC08_BoundedWork() {
 	}
 }
 
-
 // VerifC08_Growth: the work clause as a growth condition.  A budget A + B*n*n with generous constants only trips on
 // an exponential computation; a cubic or quartic one stays below it for the sizes inside the bound.  Here the weighted
 // builder is measured at depth d and at depth 2d of the same family (instructions executed - deterministic under the
